@@ -70,6 +70,22 @@ class HarnessError(Exception):
 
 # ---------------------------------------------------------------------------------------- findings
 
+def il_sha(extra):
+    """Hash of the emitted code a violation was observed on (comments stripped, temporaries renamed, whitespace collapsed)."""
+    import re
+    il = "\n".join(str(extra[k]) for k in ("il", "il_a", "il_b", "got") if extra.get(k))
+    if not il:
+        return None
+    code = "\n".join(l.split("//", 1)[0] for l in il.split("\n"))
+    names = {}
+
+    def ren(m):
+        names.setdefault(m.group(0), f"h_tmp#{len(names)}")
+        return names[m.group(0)]
+    code = re.sub(r"h_tmp\d+", ren, code)
+    return hashlib.sha256(" ".join(code.split()).encode()).hexdigest()[:16]
+
+
 class Findings:
     """known_findings.json: {"findings": [{property, id, what, clause, keys: [...]}], "fixed": ["fixed: ..."]}
     A finding suppresses exactly the (property, key, clause) triples it lists - nothing else."""
@@ -86,11 +102,19 @@ class Findings:
             for k in e["keys"]:
                 self.index[(k, e["clause"])] = e
         self.hits = {}
+        self.changed = []
 
-    def match(self, key, clause):
+    def match(self, key, clause, sha=None):
+        """A finding matches the exact (key, clause) AND - where recorded - the exact emitted code it was observed on,
+        so the same input failing on DIFFERENT emitted code is reported as a new violation."""
         e = self.index.get((key, clause))
-        if e is not None:
-            self.hits.setdefault(e["id"], []).append(key)
+        if e is None:
+            return None
+        want = (e.get("il_sha") or {}).get(key)
+        if want is not None and sha is not None and want != sha:
+            self.changed.append((key, e["id"]))
+            return None
+        self.hits.setdefault(e["id"], []).append(key)
         return e
 
 
@@ -126,11 +150,16 @@ class Report:
         findings = Findings(self.prop)
         new_violations = []
         known = 0
+        hashes = {}
         for it in self.items:
             if it["status"] != "violation":
                 continue
-            e = findings.match(it["key"], it["clause"])
+            sha = il_sha(it["extra"])
+            hashes[it["key"] + "|" + it["clause"]] = sha
+            e = findings.match(it["key"], it["clause"], sha)
             if e is None:
+                if any(k == it["key"] for k, _ in findings.changed):
+                    it["detail"] += " [listed as a known finding, but the emitted code differs from the code the finding was recorded on]"
                 new_violations.append(it)
             else:
                 known += 1
@@ -146,6 +175,8 @@ class Report:
             print(f"VIOLATION property={self.prop} replay={path}")
             print(f"  {it['key'][:200]} [{it['clause']}] {it['detail'][:300]}")
             code = 1
+        with open(os.path.join(VERIF, "replays", self.prop, "_last_violation_hashes.json"), "w") as f:
+            json.dump(hashes, f, indent=0)
         with open(os.path.join(VERIF, "replays", self.prop, "_last_new_violations.json"), "w") as f:
             json.dump([dict(key=it["key"], clause=it["clause"], detail=it["detail"]) for it in new_violations], f, indent=0)
         if len(new_violations) > 50:
